@@ -19,7 +19,8 @@ RULE = ("A case is 1-3 fake nodes whose connection attempts take 0 or 0.5 virtua
         "and a later second connect() run as client threads, so they may still be in progress), protocol 4 or 2, default or "
         "never-convicting conviction policy, ConstantReconnectionPolicy(1 s), and a generated prefix of events: a pool "
         "connection fails, a node goes down / comes back, STATUS_CHANGE UP/DOWN, a node leaves / joins the ring, a request is "
-        "sent (answered or left unanswered), the clock advances by 0.1-1.6 s.  Then Cluster.shutdown() or "
+        "sent (answered or left unanswered), a pool connection with a request in flight is closed by the peer with nothing "
+        "run before the next step (so the pool's reaction is still queued when shutdown starts), the clock advances by 0.1-1.6 s.  Then Cluster.shutdown() or "
         "Session.shutdown() runs as another client thread, a few more events follow, 12 virtual seconds pass, a request "
         "and a connect() are attempted, and finally the cluster is shut down.  A schedule tape picks the runnable virtual "
         "thread at every choice point.  Non-trivial: at least one connection attempt (initial connect, pool creation, "
@@ -47,6 +48,7 @@ def s_case(gran):
         st.tuples(st.just("join"), h),
         st.tuples(st.just("connect2")),
         st.tuples(st.just("query"), h, st.booleans()),
+        st.tuples(st.just("die_now"), h),
     ).map(list)
     return st.fixed_dictionaries({
         "pv": st.sampled_from([4, 4, 4, 2]),
@@ -54,7 +56,9 @@ def s_case(gran):
         "delays": st.lists(st.sampled_from([0.0, 0.5, 0.5]), min_size=3, max_size=3),
         "convict": st.sampled_from([True, True, False]),
         "settle_connect": st.booleans(),
-        "events": st.lists(ev, max_size=8),
+        # (often the history ends with a pool connection dying at the very moment of the shutdown)
+        "events": st.one_of(st.lists(ev, max_size=8),
+                            st.tuples(st.lists(ev, max_size=5), h).map(lambda t: t[0] + [["die_now", t[1]]])),
         "shutdown": st.sampled_from(["cluster", "cluster", "session"]),
         "after": st.lists(ev, max_size=3),
         "tape": st.lists(st.integers(0, 3), max_size=40 if gran == "locks" else 10),
@@ -189,6 +193,18 @@ def _run(case, ctx, sim):
                 connects.append(sim.spawn(do_connect))
         elif kind == "query":
             run_query(0, addrs[ev[1] % n], ev[2])
+        elif kind == "die_now":
+            # the peer closes a pool connection that has a request in flight; nothing runs before the next event (or
+            # the shutdown): the pool's reaction (host down / replacement task) is still queued at that moment
+            a = addrs[ev[1] % n]
+            conns = [c for c in (S.pool_connections(sessions[0], a) if sessions else []) if not c.is_closed]
+            if conns:
+                run_query(0, a, True)
+                sim.settle()
+                for c in conns:
+                    net.server_close(c)
+            ctx.label("ev:die_now")
+            return
         sim.settle()
         ctx.label("ev:" + kind)
 
